@@ -13,27 +13,13 @@ from . import heap as hp
 from .heap import H
 from .engine import Contract
 from .contracts_graph import X, V, edge, frame
-from .contracts_kripke import wfK, lref, lab_dict, S0
+from .contracts_kripke import wfK, lref, lab_dict, S0, is_label_set, structure_kept
 from . import formula_sem as fs
 from .formula_sem import is_tag, nk
 
 FILE = 'CTLS/model_checking.py'
 I = z3.IntSort()
 F = hp.F
-
-
-def is_label_set(h, k, r):
-    s = X('s')
-    return z3.Exists([s], z3.And(V(h, k)[s], lref(h, k, s) == r))
-
-
-def structure_kept(h0, h1, k):
-    """same states, transitions and initial states; same label-set objects (their contents may grow)"""
-    s, d = X('s'), X('d')
-    return [('wf', wfK(h1, k)),
-            ('same_states', z3.ForAll([s], V(h1, k)[s] == V(h0, k)[s])),
-            ('same_transitions', hp.FA([s, d], edge(h1, k, s, d) == edge(h0, k, s, d), [])),
-            ('same_label_objects', z3.ForAll([s], z3.Implies(V(h0, k)[s], lref(h1, k, s) == lref(h0, k, s))))]
 
 
 def labels_frame(c):
